@@ -3,8 +3,8 @@
 import sys, os, shutil, json, re, subprocess
 m, detected = sys.argv[1], sys.argv[2]
 prop, x = m.split('/')
-src = f'/tmp/mut-{prop}/{x}'
-dst = f'/verif/seeded/{prop}{x}'
+src = f'/tmp/' + os.environ.get('MUT','mut') + f'-{prop}/{x}'
+dst = f'/verif/seeded/{prop}{x}' + os.environ.get('SUFFIX','')
 os.makedirs(dst, exist_ok=True)
 for f in ('patch.diff', 'mutdemo_test.go', 'notes.md'):
     shutil.copy(os.path.join(src, f), os.path.join(dst, f))
